@@ -1899,7 +1899,7 @@ func makeInterfaceArshaler(t reflect.Type) *arshaler {
 			return nil
 		}
 		var v addressableValue
-		if va.IsNil() {
+		if va.IsNil() || isSelfPointer(va) {
 			// Optimize for the any type if there are no special options.
 			// We do not care about stringified numbers since JSON strings
 			// are always unmarshaled into an any value as Go strings.
@@ -1960,6 +1960,16 @@ func makeInterfaceArshaler(t reflect.Type) *arshaler {
 		return err
 	}
 	return &fncs
+}
+
+// isSelfPointer reports whether the interface value va holds a pointer
+// to va itself (e.g., var v any; v = &v). Such a value cannot be merged into:
+// following the pointer leads back to the same interface value forever.
+// Like a nil interface, it is replaced by the unmarshaled value.
+func isSelfPointer(va addressableValue) bool {
+	e := va.Elem()
+	return e.Kind() == reflect.Pointer && !e.IsNil() &&
+		e.Type().Elem() == va.Type() && e.UnsafePointer() == va.Addr().UnsafePointer()
 }
 
 // isAnyType reports whether t is equivalent to the any interface type.
